@@ -219,8 +219,8 @@ pub fn minimise(replay: &Json) -> Json {
 
 pub fn tier_runs(tier: &str, part: &str) -> u64 {
     let base = match (tier, part) {
-        ("thorough", "seq") => 4_000_000,
-        ("thorough", _) => 60_000,
+        ("thorough", "seq") => 16_000_000,
+        ("thorough", _) => 300_000,
         (_, "seq") => 60_000,
         (_, _) => 1_500,
     };
